@@ -240,6 +240,64 @@ type loopDesc struct {
 	calls  bool                // non-pure calls, defers, sends: anything may change
 	stTyps []types.Type        // types stored through non-local pointers
 	stored map[*ssa.Alloc]bool // non-escaping allocs stored to in the loop
+	modVals []ssa.Value        // values whose reachable memory is modified by calls with a precise frame
+}
+
+// loopCallFrame: for a call in a loop whose callee has a contract with an
+// explicit modifies clause made only of parameters ("p", "reach(recv)"), the
+// SSA values bound to those parameters, provided they are defined outside the
+// loop (so they can be evaluated at the loop head).
+func (p *Prog) loopCallFrame(c *ssa.CallCommon, ld *loopDesc) ([]ssa.Value, bool) {
+	con, ok := p.CS.ByName[p.calleeName(c)]
+	if !ok || con.sweepOnly() || con.Pure || !con.HasMod || len(con.Modifies) == 0 || con.Inline {
+		return nil, false
+	}
+	names := map[string]ssa.Value{}
+	args := c.Args
+	k := 0
+	if c.IsInvoke() {
+		names["recv"], names["arg0"] = c.Value, c.Value
+		k = 1
+	} else if sc := c.StaticCallee(); sc != nil && len(sc.Params) == len(args) {
+		for i, prm := range sc.Params {
+			names[prm.Name()] = args[i]
+			names[fmt.Sprintf("arg%d", i)] = args[i]
+		}
+		args = nil
+	} else if c.Signature().Recv() != nil && len(args) > 0 {
+		names["recv"], names["arg0"] = args[0], args[0]
+		args = args[1:]
+		k = 1
+	}
+	ps := c.Signature().Params()
+	for j := 0; j < ps.Len() && j < len(args); j++ {
+		if n := ps.At(j).Name(); n != "" && n != "_" {
+			names[n] = args[j]
+		}
+		names[fmt.Sprintf("arg%d", k+j)] = args[j]
+	}
+	var out []ssa.Value
+	for _, m := range con.Modifies {
+		m = strings.TrimSpace(m)
+		if strings.HasPrefix(m, "reach(") && strings.HasSuffix(m, ")") {
+			m = strings.TrimSpace(m[len("reach(") : len(m)-1])
+		}
+		v, ok := names[m]
+		if !ok {
+			return nil, false
+		}
+		switch d := v.(type) {
+		case *ssa.Parameter, *ssa.FreeVar, *ssa.Global, *ssa.Const:
+		case ssa.Instruction:
+			if d.Block() == nil || ld.blocks[d.Block()] {
+				return nil, false
+			}
+		default:
+			return nil, false
+		}
+		out = append(out, v)
+	}
+	return out, true
 }
 
 func (p *Prog) loopInfo(fn *ssa.Function) *loopInfo {
@@ -300,7 +358,11 @@ func (p *Prog) loopInfo(fn *ssa.Function) *loopInfo {
 						ld.stTyps = append(ld.stTyps, x.Val.Type())
 					}
 				case *ssa.Call:
-					if !p.callIsPure(x.Common()) {
+					if vals, ok := p.loopCallFrame(x.Common(), ld); ok {
+						// the callee's frame is named by its contract and evaluable at the
+						// loop head (values defined outside the loop): havoc exactly that
+						ld.modVals = append(ld.modVals, vals...)
+					} else if !p.callIsPure(x.Common()) {
 						ld.wild = true
 						ld.calls = true
 						if os.Getenv("GOVC_DEBUG") != "" {
